@@ -32,6 +32,7 @@ ASSUMPTIONS = ['heapq keeps the minimum at index 0 when all mutations go '
                'through it']
 
 T, WQ, AQ = 'self._timer', 'self._wait_queue', 'self._active_queue'
+G_ = 'self._generators'
 
 
 class _D(Domain):
@@ -174,6 +175,24 @@ def run(program, rep, tier, sleep_only=False):
 
     for ex in exits:
         tr = ex.state.trace
+        # a frame that returns without reaching the active loop is only
+        # legitimate when nothing is registered (dt = 0 frames - the first
+        # frame of SimpleLoop - and frames without waiters still step)
+        if ex.kind in ('return', 'fall') and not any(
+                e.kind == 'cond' and e.sym.text == f'{AQ}[0] is None'
+                for e in tr):
+            empty = any(e.kind == 'cond' and (
+                (e.sym.text in (G_, f'len({G_})', f'len({G_}) > 0',
+                                f'len({AQ}) > 1') and e.extra is False)
+                or (e.sym.text in (f'len({G_}) == 0', f'len({AQ}) <= 1',
+                                   f'len({AQ}) == 1') and e.extra is True))
+                for e in tr)
+            if not empty:
+                flag('step', ex.node if ex.node is not None else f.node,
+                     'process() returns without stepping the active '
+                     'coroutines on a path that has not established that '
+                     'none is registered (e.g. when dt is 0): running '
+                     'coroutines are not advanced in that frame')
         advs = 0
         wake_seen = False
         empty_known = False
